@@ -223,8 +223,40 @@ def _fp_grid(g):
             _arr(g.node_lat.values),
             tuple(sorted(str(v) for v in g._ds.variables if str(v).startswith("subgrid_"))),
         ]
-        + [_arr(g._ds[v].values) for v in sorted(str(v) for v in g._ds.variables if str(v).startswith("subgrid_"))],
+        + [_arr(g._ds[v].values) for v in sorted(str(v) for v in g._ds.variables if str(v).startswith("subgrid_"))]
+        + _fp_panel(g),
     )
+
+
+# what a derived grid (subset, dual, cross-section) answers when asked: whatever state it inherited
+# from a source that had been used before must not show in any of these
+DERIVED_PANEL = (
+    "n_nodes_per_face",
+    "edge_node_connectivity",
+    "face_edge_connectivity",
+    "edge_face_connectivity",
+    "face_face_connectivity",
+    "node_face_connectivity",
+    "hole_edge_indices",
+    "node_x",
+    "face_lon",
+    "face_x",
+    "edge_lon",
+    "edge_node_distances",
+    "edge_face_distances",
+    "face_areas",
+)
+
+
+def _fp_panel(g):
+    out = []
+    for name in DERIVED_PANEL:
+        try:
+            v = getattr(g, name)
+            out.append((name, _fp_dataarray(v) if hasattr(v, "dims") else _arr(np.asarray(v))))
+        except Exception as e:  # noqa: some derived grids cannot answer (open boundary, degenerate faces): the same either way
+            out.append((name, "raises", type(e).__name__))
+    return out
 
 
 def _fp_gdf(gdf):
